@@ -400,3 +400,51 @@ func modelSafeText(segs []segment) []byte {
 	}
 	return out
 }
+
+// prefixModel: the observable meaning (stripped text, text outside
+// envelopes) of every prefix of a history, computed in one pass.
+type prefixModel struct {
+	strip, safe []byte
+	exact       bool
+}
+
+func modelPrefixes(ops []*Op, inst int) []prefixModel {
+	out := make([]prefixModel, len(ops))
+	var strip, safe []byte
+	exact := true
+	nseg := 0
+	// modelOps is replayed op by op on a growing window: each op's own
+	// segments are obtained by modelling it after a mode-setting stub
+	mode := segUnsafe
+	for i, op := range ops {
+		// model the single op in the current raw-write mode
+		stub := []*Op{{K: "MBSetMode", I: int64(map[segClass]int{segUnsafe: 0, segSafe: 1, segRaw: 2}[mode])}, op}
+		segs, ex := modelOps(stub, inst)
+		switch op.K {
+		case "Reset", "TakeS", "TakeB":
+			strip, safe = nil, nil
+			mode = segUnsafe
+			exact = true // a new buffer: earlier inexact payloads are gone
+		default:
+			if !ex {
+				exact = false
+			}
+			strip = append(strip, modelStrip(segs)...)
+			safe = append(safe, modelSafeText(segs)...)
+			nseg += len(segs)
+			// track the mode the op leaves behind
+			switch op.K {
+			case "SafeString", "SafeBytes", "SafeInt", "SafeUint", "SafeFloat", "SafeRune", "SafeByte":
+				mode = segSafe
+			case "UnsafeString", "UnsafeBytes", "Write", "WriteString", "UnsafeRune", "WriteRune", "UnsafeByte", "WriteByte":
+				mode = segUnsafe
+			case "Print", "Printf":
+				mode = segRaw
+			case "MBSetMode":
+				mode = []segClass{segUnsafe, segSafe, segRaw}[int(op.I)%3]
+			}
+		}
+		out[i] = prefixModel{strip: strip[:len(strip):len(strip)], safe: safe[:len(safe):len(safe)], exact: exact}
+	}
+	return out
+}
